@@ -166,6 +166,56 @@ def buffer_sites():
     return obs
 
 
+@structural("C07", "local-names-are-bound-only-through-assign")
+def locals_written_only_by_assign():
+    """RenderContext.assign is the one place the namespace limit is applied (contract 'assign' above);
+    so nothing outside liquid/context.py may store into a context's `locals` mapping directly."""
+    bad, n_assign = [], 0
+    for m in load.all_modules():
+        mod = load.get_module(m)
+        for fn in [x for x in ast.walk(mod.tree) if isinstance(x, (ast.FunctionDef, ast.AsyncFunctionDef))]:
+            for n in ast.walk(fn):
+                if isinstance(n, ast.Call) and isinstance(n.func, ast.Attribute) and n.func.attr == "assign" and flow.dotted(n.func.value).split(".")[-1].endswith("context"):
+                    n_assign += 1
+                if m == "liquid.context":
+                    continue
+                tgt = None
+                if isinstance(n, ast.Subscript) and isinstance(n.ctx, (ast.Store, ast.Del)) and isinstance(n.value, ast.Attribute) and n.value.attr == "locals":
+                    tgt = n
+                elif (isinstance(n, ast.Call) and isinstance(n.func, ast.Attribute) and n.func.attr in ("update", "setdefault", "__setitem__", "pop", "popitem", "clear", "__delitem__", "__ior__")
+                      and isinstance(n.func.value, ast.Attribute) and n.func.value.attr == "locals"):
+                    tgt = n
+                elif isinstance(n, (ast.Assign, ast.AugAssign, ast.AnnAssign)) and any(isinstance(t, ast.Attribute) and t.attr == "locals" for t in (n.targets if isinstance(n, ast.Assign) else [n.target])):
+                    tgt = n
+                if tgt is not None:
+                    bad.append(f"{m}:{fn.name}@{tgt.lineno}: {ast.unparse(tgt)[:80]}")
+    return [flow.ob("no-direct-store-into-context.locals-outside-liquid.context", not bad, "; ".join(bad)[:300], replay_schema="code", replay_extra={"code": REPLAY_NAMESPACE_ASYNC}),
+            flow.ob("assign-call-sites-found", n_assign >= 2, f"{n_assign} context.assign call sites")]
+
+
+REPLAY_NAMESPACE_ASYNC = r"""
+def run(m):
+    import asyncio, sys
+    from liquid import Environment, DictLoader
+    from liquid.exceptions import LocalNamespaceLimitError
+    loader = DictLoader({"p": "{% capture r %}{% for i in (1..40) %}zzzz{% endfor %}{% endcapture %}"})
+    big = sys.getsizeof("zzzz" * 40)
+    bad = []
+    class E(Environment):
+        local_namespace_limit = big - 10
+    env = E(loader=loader)
+    for src in ("{% capture c %}{% for i in (1..40) %}zzzz{% endfor %}{% endcapture %}", "{% render 'p' %}", "{% assign a = 'zzzz' %}{% capture c %}{% for i in (1..40) %}{{ a }}{% endfor %}{% endcapture %}"):
+        t = env.from_string(src)
+        for mode, call in (("sync", lambda: t.render()), ("async", lambda: asyncio.run(t.render_async()))):
+            try:
+                call()
+                bad.append((mode, src))
+            except LocalNamespaceLimitError:
+                pass
+    return {"failing": bool(bad), "witness": "namespace-limit-not-applied-to-a-binding", "call": repr(bad[:2]) if bad else "capture over the limit, sync and async", "result": "render completed holding more than the limit" if bad else "ok"}
+"""
+
+
 def _size_after(eng, c, func, ctx):
     """call target, then measure get_size_of_locals() in the post-state"""
     outs = eng.run(func, c.st, c.args, c.kwargs, self_val=c.self_val)
